@@ -1,3 +1,5 @@
--- This module serves as the root of the `Ark` library.
--- Import modules here that should be built as part of the library.
+-- Root of the `Ark` library: the model. Proofs, property theorems, generated definitions and
+-- audits are separate modules under Ark/ and are built through the library's glob.
 import Ark.Basic
+import Ark.Model.Ops
+import Ark.Model.Stats
